@@ -1036,7 +1036,7 @@ FOREIGN = ["x0", "z", "hadamard", "cx", "x-type1", "bell", "ghz", "identity", "x
            "xx-parity", "zzparity-", "-xxparity", "z-z-parity", "x-0", "bell-", "z-2", "x-type-1", "xtype1", "xxparity-type-1", "get_povm_xxparity"]
 
 
-def product_names(rng, fq, ft, specials, n_each):
+def product_names(rng, fq, ft, specials, n_each, wide=False):
     """names SHAPED like catalogue products, built from listed factors, that lie beyond the catalogued systems or are malformed:
     one / two factors more than the largest catalogued system of the kind (4, 5 qubit factors; 3, 4 qutrit factors), mixed qubit / qutrit
     factors, special (non-product) names with factors attached, repeated factors, empty factors, leading / trailing separators.
@@ -1050,8 +1050,12 @@ def product_names(rng, fq, ft, specials, n_each):
         det = rnd == 0                                   # first round deterministic: first factor repeated
         if fq:
             add([fq[0]] * 4 if det else pick(fq, 4), "4-qubit-factors"); add([fq[-1]] * 5 if det else pick(fq, 5), "5-qubit-factors")
+            for cnt in ((6, 7, 8) if wide else ()):          # (thorough tier / broken translator tie: longer products)
+                add([fq[0]] * cnt if det else pick(fq, cnt), "%d-qubit-factors" % cnt)
         if ft:
             add([ft[0]] * 3 if det else pick(ft, 3), "3-qutrit-factors"); add([ft[-1]] * 4 if det else pick(ft, 4), "4-qutrit-factors")
+            for cnt in ((5, 6) if wide else ()):
+                add([ft[0]] * cnt if det else pick(ft, cnt), "%d-qutrit-factors" % cnt)
         if fq and ft:
             for pat in ("qt", "tq", "qqt", "tqt", "qtt", "tqq"):
                 add([(fq[0] if det else rng.choice(fq)) if ch == "q" else (ft[0] if det else rng.choice(ft)) for ch in pat], "mixed-qubit-qutrit")
@@ -1351,7 +1355,8 @@ def sub_unknown(ctx):
     # well-formed / malformed PRODUCT names beyond the catalogued systems, for every family
     pools = product_factor_pools(); nprod = {}
     for f, (fq, ft, sp) in pools.items():
-        pn = product_names(ctx.rng, fq, ft, sp, {"gate": ctx.n(0, 2), "state": ctx.n(3, 12)}.get(f, ctx.n(1, 6)))
+        wide = (not ctx.quick or getattr(ctx, "boost", False)) and f in ("state", "state_ensemble")
+        pn = product_names(ctx.rng, fq, ft, sp, {"gate": ctx.n(0, 2), "state": ctx.n(3, 12)}.get(f, ctx.n(1, 6)), wide=wide)
         pn = [(n, k) for n, k in pn if n not in _listed(f)]
         nprod[f] = len(pn)
         cases += [{"family": f, "name": n, "product": k, "quick": ctx.quick} for n, k in pn]
@@ -1638,7 +1643,7 @@ def regen_names(ctx):
     Vd = runner.V
     scratch = os.path.join(getattr(ctx, "scratch", os.path.join(Vd, "build", ctx.prop_id)), "gen")
     os.makedirs(scratch, exist_ok=True)
-    files = ["C17_Equiv"] + ([] if ctx.quick else ["C17_EquivAll"])
+    files = ["C17_Equiv"] + ([] if ctx.quick else ["C17_EquivAll", "C17_EquivLists"])
     thms = []
     for fn in files:
         src = open(os.path.join(Vd, "coq", "gen", fn + ".v")).read()
@@ -1648,7 +1653,7 @@ def regen_names(ctx):
     gen_v = os.path.join(scratch, "Gen_c17_names.v")
     r = subprocess.run([sys.executable, os.path.join(Vd, "gen", "c17_py2coq.py"), os.environ.get("VERIF_REPO", "/repo"), gen_v], capture_output=True, text=True, timeout=120)
     if r.returncode != 0:
-        return False, {"theorem": thms[0], "error": "translator rejected the source (outside its subset): " + (r.stdout + r.stderr)[-600:]}
+        return False, {"theorem": "translator-tie(gen/c17_py2coq.py)", "error": "translator rejected the source (outside its subset): " + (r.stdout + r.stderr)[-600:]}
     ctx.note("translator tie: " + r.stdout.strip()[:900])
     qargs = ["-Q", os.path.join(Vd, "coq", "theories"), "QV", "-Q", scratch, "QVGen"]
     r = subprocess.run(["timeout", "300", "coqc"] + qargs + [gen_v], capture_output=True, text=True)
